@@ -102,10 +102,12 @@ Sent(rt, ds) == [a \in Addr |-> IF a \in ds THEN "us" ELSE rt[a]]
 Start ==
   /\ ~started /\ state # "Failed"
   /\ started' = TRUE
-  /\ rc' = rc \cup {"P"}
-  /\ phost' = (IF "P" \in rc THEN phost ELSE TRUE)
+  \* ICE-TCP: the peer signals an active candidate (port 9); its real source address is only ever learnt
+  \* from an inbound connection, and checks towards the placeholder fail at once
+  /\ rc' = (IF sock = "tcp" THEN rc ELSE rc \cup {"P"})
+  /\ phost' = (IF sock = "tcp" \/ "P" \in rc THEN phost ELSE TRUE)
   /\ state' = "Checking"
-  /\ (LET r == IF sel = "none" THEN NewRound(pend, rc', nrounds) ELSE [pend |-> pend, n |-> nrounds]
+  /\ (LET r == IF sel = "none" /\ sock # "tcp" THEN NewRound(pend, rc', nrounds) ELSE [pend |-> pend, n |-> nrounds]
       IN pend' = r.pend /\ nrounds' = r.n)
   \* connectivity checks go out on the raw socket (IceGatherer::get_socket), not through the session handle:
   \* they do not route their destination back to this session
@@ -123,8 +125,18 @@ Authentic(q) == q.user = "ok" /\ q.mi = "ok"
 \* peer-reflexive one (X, or P when it was first learnt from a request)
 Better(a, b) == a = "P" /\ b = "X" /\ phost
 
+\* ICE-TCP, request on an accepted inbound connection (complete_controlled_inbound_tcp_nomination):
+\* a controlled agent takes the first accepted request - with or without USE-CANDIDATE - as the nomination
+AcceptTcp(src) ==
+  /\ rc' = rc \cup {src}
+  /\ (IF role = "controlled" /\ nom = "none"
+      THEN sel' = src /\ state' = "Connected" /\ nom' = "true"
+      ELSE UNCHANGED <<sel, state, nom>>)
+  /\ UNCHANGED <<pend, nrounds, routes>>
+
 \* What handle_stun_request does with a request it accepts.
 Accept(src, uc, rt) ==
+  IF sock = "tcp" THEN AcceptTcp(src) ELSE
   LET isNew   == src \notin rc
       rc1     == rc \cup {src}
       useIt   == uc /\ role = "controlled"
